@@ -1174,7 +1174,7 @@ def work(item):
     for n, (chan, v) in enumerate(todo):
         case = {"type": spec, "channel": chan, "value": v}
         devs, facts = judge(case)
-        if mid is None and (facts["accepted"] or n >= len(todo) // 3):
+        if mid is None and (bool(facts["accepted"]) == (len(cj(spec)) % 2 == 0) or n >= len(todo) // 2):
             mid = {"type": spec, "channel": chan, "value": v, "accepted_by_some_member_order": bool(facts["accepted"])}
         res["cases"] += 1
         res["perms"] = facts.get("perms", 0)
